@@ -46,9 +46,10 @@ def oracle (obs : List (List String × String)) : Verdict :=
       | .exp .., .expired .. => true
       | .dc .., .dc .. => true
       | _, _ => false
-    let tags := (judged.map (opTag ·.1)).eraseDups
+    let inDom := tr.all fun p => Spec.C19.opInDomain p.1
+    let tags := (judged.map (opTag ·.1)).eraseDups ++ (if inDom then [] else ["out-of-domain"])
     if Spec.C19.holdsOn tr then
-      { ok := true, nontrivial := !judged.isEmpty, tags := tags }
+      { ok := true, nontrivial := inDom && !judged.isEmpty, tags := tags }
     else
       match tr.find? (fun p => !Spec.C19.holdsOp p) with
       | some p => { ok := false, nontrivial := true, tags := tags,
